@@ -139,6 +139,8 @@ func histFiles(ext string) map[string]string {
 		"shapes" + ext:           "{{ [1, [2, [n]]] }}|{{ {a: {b: {c: n}}}.a.b.c }}|{{ \"abcdef\".at(n) }}|{{ \"x\".repeat(n) }}|{{ [1, 2, 3, 4].slice(n).len() }}|{{ 5.decimal(\".\", n) }}|{{ true.then(n, 0) }}|{{ false.then(0, s) }}|{{ \"a,b\".split(\",\").join(s) }}|{{ [s].contains(\"k\") ? 1 : 2 }}|{{ \"kz\".contains(s) }}|{{ (1 > 0) ? n : 0 }}|{{ -n }}|{{ !b }}|{{ [n, 0][0] }}|{{ {k: n, j: s}.k }}|{{ \"s\" + s }}|{{ 1 + n * 2 }}|{{ 1.5 * n.float() }}|{{ [[s, \"x\"], [n]][0][0] }}|{{ {list: [n, {deep: s}]}.list[1].deep }}|{{ \"%d\".len() + n }}|{{ [\"p\", \"q\", \"r\", \"s\"][n] }}|{{ \"abc\".truncate(n, s) }}|{{ [3, 1, 2].contains(n) }}|{{ n.str() + \"!\" }}|{{ b ? \"yes\" : \"no\" }}|{{ (b ? [1] : [1, 2]).len() }}|{{ [1, 2].append(n).len() }}|{{ [0].prepend(s)[0] }}|{{ n == 1 ? \"one\" : n == 3 ? \"three\" : \"many\" }}|@if(\"k\" == s)Y@elseif([3].contains(n))E@else N@end|@each(x in [1, n])<{{ x }}>@end|@for(i = 0; i < n; i++)({{ i }})@end|@each(x in [])@else{{ s }}@end|{{ v = [n, s] }}{{ v }}|{{ w = {k: n} }}{{ w.k }}",
 		"ruler" + ext:            "@use(\"~main\")@insert(\"title\", \"=\".repeat(width))@insert(\"body\", [\"w\", width.str()].join(\":\"))",
 		"badge" + ext:            "{{ \"admin,editor\".contains(role) ? \"staff\" : \"guest\" }}|{{ [role].contains(\"admin\") ? 1 : 2 }}|@if(\"admin\".contains(role))a@else b@end|{{ true.then(role, 0) }}|{{ role.len() > 5 ? \"long\" : \"short\" }}|{{ \"x\".repeat(role.len()) }}|{{ [1, 2, 3].slice(role.len() - 5).len() }}|@each(k in [1, 2]){{ \"ab\".contains(role.at(k)) ? \"y\" : \"n\" }}@end",
+		// round 17: literals holding the characters that are escaped, printed, concatenated, in a loop, under raw(), as arguments
+		"escapes" + ext: "<p>{{ \"Tom & Jerry <3\" }}</p>|{{ 'a > b' + \"&amp;\" }}|@each(k in [1, 2]){{ \"<\" + \"i>\" }}@end|{{ \"x & y\".raw() }}|{{ \"\\\"q\\\" & 'r'\" }}|@component(\"~card\", {t: \"<t&>\"})@slot{{ \"&\" }}@end@end|{{ [\"<\", \"&\"].join(\">\") }}",
 		"numbers" + ext:          "{{ x.str() }}|{{ x }}|{{ (x * 1.0).str() }}|{{ (0.0 * x).str() }}|{{ [[n, n + 1], [0, 0]] }}|{{ [1, [n], \"s\"] }}|@each(k in [[n], [2]]){{ k }}@end|{{ {a: [n], b: {c: n}} }}|{{ [[]].len() + n }}|{{ [\"a\", [\"b\" + n.str()]] }}",
 	}
 }
@@ -192,6 +194,8 @@ func histOps() []histOp {
 		{"String(missing)", str("no/such/page", structData)},
 		{"String(layout name)", str("layouts/main", noData)},
 		{"String(list)", str("list", listData)},
+		{"String(escapes)", str("escapes", noData)},
+		{"Response(escapes)", resp("escapes", structData)},
 		{"Response(home)", resp("home", mapData)},
 		{"Response(bad)", resp("bad", structData)},
 		{"Response(missing)", resp("ghost", noData)},
